@@ -201,3 +201,15 @@ A(V("c12-hv-merge-weak", "C12", SPZ, '        elif {op1, op2} == {"vlineto", "hl
 A(V("c12-stackuse-before-push", "C12", PS, "            self.operandStack.append(value)\n            maxStackUse = max(maxStackUse, len(self.operandStack))", "            maxStackUse = max(maxStackUse, len(self.operandStack))\n            self.operandStack.append(value)", "F24"))
 A(V("c12-subrs-left", "C12", "cffLib/transforms.py", "            for fd in font.FDArray:\n                pd = fd.Private\n                if hasattr(pd, \"Subrs\"):\n                    del pd.Subrs\n", "            for fd in font.FDArray[:1]:\n                pd = fd.Private\n                if hasattr(pd, \"Subrs\"):\n                    del pd.Subrs\n", "CFF-xf"))
 A(V("c12-flex-width", "C12", PS, "        dx1, dy1, dx2, dy2, dx3, dx4, dx5, dy5, dx6 = self.popall()", "        dx1, dy1, dx2, dy2, dx3, dx4, dx5, dx6 = self.popall()", "CFF-arity"))
+
+# ---- C19 -------------------------------------------------------------------
+DSL = "designspaceLib/__init__.py"
+A(V("c19-filenames-k17-back", "C19", "misc/filenames.py", "illegalCharacters = r'\" * + / : < > ? [ \\ ] |'.split(\" \")\nillegalCharacters += [chr(i) for i in range(0, 32)]", "illegalCharacters = r\"\\\" * + / : < > ? [ \\ ] | \\0\".split(\" \")\nillegalCharacters += [chr(i) for i in range(1, 32)]", "F28"))
+A(V("c19-existing-case", "C19", "ufoLib/glifLib.py", "                self._existingFileNames = {\n                    fileName.lower() for fileName in self.contents.values()\n                }", "                self._existingFileNames = set(self.contents.values())", "F25-name"))
+A(V("c19-add-case", "C19", "ufoLib/glifLib.py", "            self._existingFileNames.add(fileName.lower())", "            self._existingFileNames.add(fileName)", "F25-name"))
+A(V("c19-clash-untested", "C19", "ufoLib/filenames.py", "        if fullName.lower() not in existing:\n            finalName = fullName\n            break\n        else:\n            counter += 1\n        if counter >= 999999999999999:", "        if fullName not in existing:\n            finalName = fullName\n            break\n        else:\n            counter += 1\n        if counter >= 999999999999999:", "F25-name"))
+A(V("c19-map-backward-order", "C19", DSL, "        backward = sorted((design, user) for user, design in axis_map)", "        backward = [(design, user) for user, design in sorted(axis_map)]", "F22-axis"))
+A(V("c19-ds-attr-renamed", "C19", DSL, "            axisElement.attrib[\"hidden\"] = \"1\"", "            axisElement.attrib[\"hide\"] = \"1\"", "F7-ds"))
+A(V("c19-ds-elem-renamed", "C19", DSL, "        mappingElement = ET.Element(\"mapping\")", "        mappingElement = ET.Element(\"axismapping\")", "F7-ds"))
+A(V("c19-plist-handler", "C19", "misc/plistlib/__init__.py", "_make_element.register(bytearray)(_data_element)\n", "", "F7-plist"))
+A(V("c19-maxlen", "C19", "ufoLib/filenames.py", "maxFileNameLength: int = 255", "maxFileNameLength: int = 256", "F28"))
